@@ -282,9 +282,11 @@ impl<C: ConfigurationAccess> PciRoot<C> {
 
         // For IO BARs bits 2 and 3 can be part of the address.
         let flag_bits = if io_space { 0b11 } else { 0b1111 };
-        // A wrapping add is necessary to correctly handle the case of unused BARs, which read back
-        // as 0, and should be treated as size 0.
-        let size = (!(size_mask & !flag_bits)).wrapping_add(1);
+        // The size is the lowest writable address bit. Address bits above the decoded range may be
+        // hard-wired to 0 (e.g. the upper 16 bits of an I/O BAR), so don't rely on all the higher
+        // bits being set. Unused BARs read back as 0 and get size 0.
+        let address_mask = size_mask & !flag_bits;
+        let size = address_mask & address_mask.wrapping_neg();
 
         // Restore the original value.
         self.configuration_access.write_word(
